@@ -298,6 +298,10 @@ def run(ctx):
                 bad = '%s(...)' % txt(n.func)
             elif isinstance(n, ast.Subscript) and isinstance(n.ctx, (ast.Store, ast.Del)) and txt(n.value) in alias:
                 bad = 'item store/delete on %s' % txt(n.value)
+            elif isinstance(n, ast.Attribute) and isinstance(n.ctx, (ast.Store, ast.Del)) and txt(n) == 'self._pq' and \
+                    name not in ('__init__',):
+                # replaced wholesale by a list the base class built itself (e.g. a filtered copy: not a heap any more)
+                bad = 'the entry list is replaced outside __init__'
             elif isinstance(n, ast.Call) and call_name(n) in ('heappop', 'heappush', 'heapq.heappop', 'heapq.heappush', 'insort',
                                                               'bisect.insort', 'bisect.insort_right') and n.args and txt(n.args[0]) in alias:
                 bad = '%s on the entry list' % call_name(n)
